@@ -152,10 +152,11 @@ type Prelude struct {
 	GoTypes []string // Go types whose sorts the prelude mentions
 	ExtraDecl map[string]string // constructor/selector symbol -> module
 	Attach map[string][]string // module -> axiom modules attached to it (left out of lemma queries)
+	Monotone map[string]bool // ghost counters that never decrease
 }
 
 func LoadPrelude(paths ...string) (*Prelude, error) {
-	p := &Prelude{Fns: map[string]*SpecFn{}, Ghosts: map[string]string{}, Consts: map[string]string{}, ModDeps: map[string][]string{}, AfterSorts: map[string]bool{}, ExtraDecl: map[string]string{}, Attach: map[string][]string{}}
+	p := &Prelude{Fns: map[string]*SpecFn{}, Ghosts: map[string]string{}, Consts: map[string]string{}, ModDeps: map[string][]string{}, AfterSorts: map[string]bool{}, ExtraDecl: map[string]string{}, Attach: map[string][]string{}, Monotone: map[string]bool{}}
 	for _, path := range paths {
 		data, err := os.ReadFile(path)
 		if err != nil {
@@ -188,6 +189,12 @@ func LoadPrelude(paths ...string) (*Prelude, error) {
 				module = f[0]
 				for _, d := range f[1:] {
 					p.ModDeps[module] = append(p.ModDeps[module], d)
+				}
+				continue
+			}
+			if strings.HasPrefix(s, ";@monotone") {
+				for _, g := range strings.Fields(strings.TrimPrefix(s, ";@monotone")) {
+					p.Monotone[g] = true
 				}
 				continue
 			}
